@@ -825,30 +825,81 @@ def rule_p10(F):
             if txt:
                 out.add(txt.strip("'"))
         return out
-    n = 0
+    def marker(cs):
+        return "exponent marker" if cs & {"e", "E"} else ("fraction point" if cs & {"."} else None)
+
+    def chars_in(bb, dd, t):
+        nonlocal defs, b
+        sb, sd = b, defs
+        b, defs = bb, dd
+        try:
+            return chars_of(t)
+        finally:
+            b, defs = sb, sd
+
+    # helpers of the lexer that consume a marker and say so: `fn eat_exponent(rest) -> bool` - consumed => returns true
+    helper_marks = {}
+    for hb in F.bodies_in(["src/parser/lexer.rs"]):
+        if not hb.mir or hb.path == b.path or "{closure" in hb.path or "bool" != (hb.mir["locals"][0].get("ty") or ""):
+            continue
+        hdefs = mir.Defs(hb)
+        for hbi, ht in mir.calls(hb):
+            if hir.last(mir.callee(ht) or "") not in ("eat_char", "eat_one_of", "eat_str"):
+                continue
+            w = marker(chars_in(hb, hdefs, ht))
+            if w is None:
+                continue
+            rets = set()
+            mir.bool_sim(hb, {("call", hbi): True}, start=hbi, returns=rets)
+            says_so = rets == {True}
+            helper_marks[hb.path] = (w, says_so, ht.get("line"))
+    n = set()
+    sites = []          # (what, line, start block, atoms)
     for bi, t in mir.calls(b):
-        name = hir.last(mir.callee(t) or "")
-        if name not in ("eat_char", "eat_one_of", "eat_str"):
-            continue
-        cs = chars_of(t)
-        what = None
-        if cs & {"e", "E"}:
-            what = "exponent marker"
-        elif cs & {"."}:
-            what = "fraction point"
-        if what is None:
-            continue
-        n += 1
-        # the consuming call succeeded: which tokens can still be built?
-        reached = mir.bool_sim(b, {("call", bi): True}, start=bi)
+        c = mir.callee(t) or ""
+        name = hir.last(c)
+        if name in ("eat_char", "eat_one_of", "eat_str"):
+            w = marker(chars_of(t))
+            if w:
+                sites.append((w, t.get("line"), bi, {("call", bi): True}))
+        elif c in helper_marks:
+            w, says_so, hl = helper_marks[c]
+            if not says_so:
+                r.bad(b.path, "%s consumed by a helper that does not report it" % w, relfile(b.file), t.get("line"),
+                      "%s consumes the %s of a number but can return false afterwards: its caller cannot know that the literal is a float" % (hir.last(c), w))
+            sites.append((w + " (via %s)" % hir.last(c), t.get("line"), bi, {("call", bi): True}))
+        elif name in ("strip_prefix", "split_once", "split_at") and marker(chars_of(t)):
+            # consumption = the remainder handed out by the call is stored into a string cursor
+            w = marker(chars_of(t))
+            # the cursor: the string local(s) whose final value is handed to the call that takes the token off the input
+            cursors = set()
+            for _, bt in mir.calls(b):
+                if hir.last(mir.callee(bt) or "") not in ("bump_to", "bump", "advance_to") or len(bt["args"]) < 2:
+                    continue
+                for a in bt["args"][1:]:
+                    if mir.is_place_op(a):
+                        root, _p = mir.origin(b, defs, a[1])
+                        m_ = re.match(r"local(\d+)", root)
+                        if m_:
+                            cursors.add(int(m_.group(1)))
+            for bj, blk in enumerate(b.blocks):
+                for st in blk["stmts"]:
+                    if st["k"] != "assign" or len(st["p"]) != 1 or st["p"][0] not in cursors or st["rv"]["k"] != "use" or not mir.is_place_op(st["rv"]["o"]):
+                        continue
+                    src = st["rv"]["o"][1]
+                    if bi in mir.back_calls(b, defs, src[0]) or any(d[0] == bi for d in defs.defs.get(src[0], [])):
+                        sites.append((w + " (remainder of %s stored)" % name, st.get("line"), bj, {}))
+    for w, line, start, atoms in sites:
+        n.add(w.split(" (")[0])
+        reached = mir.bool_sim(b, atoms, start=start)
         int_reach = [x for x in ints if x in reached]
-        r.inst("%s consumed at line %s" % (what, t.get("line")), {"line": t.get("line"), "Integer_token_still_reachable": bool(int_reach)})
+        r.inst("%s consumed at line %s" % (w, line), {"line": line, "Integer_token_still_reachable": bool(int_reach)})
         if int_reach:
-            r.bad(b.path, "%s consumed but an Integer token can be built" % what, relfile(b.file), t.get("line"),
+            r.bad(b.path, "%s consumed but an Integer token can be built" % w.split(" (")[0], relfile(b.file), line,
                   "after the %s of a number has been consumed, Lexer::number can still build Token::Integer: a documented float spelling such as `10e5` (or `1.5`) is lexed as an integer "
-                  "literal and rejected (or parsed with the wrong type)" % what)
-    if n < 2:
-        r.missing("the calls that consume the fraction point and the exponent marker in Lexer::number (found %d)" % n)
+                  "literal and rejected (or parsed with the wrong type)" % w.split(" (")[0])
+    if len(n) < 2:
+        r.missing("the calls that consume the fraction point and the exponent marker in Lexer::number (found %d)" % len(n))
     return r
 
 
